@@ -1,3 +1,5 @@
 //! Seeded positives and negatives for the analyses; analysed on every run.
 pub mod tables;
 pub mod stats;
+pub mod disk;
+pub mod pool;
